@@ -25,6 +25,21 @@ class NativeObj:
         raise Unsupported("call of %r" % (self,))
 
 
+class AbsClass(NativeObj):
+    """type(x) of an abstract collaborator: only its names are modelled (as unconstrained strings)"""
+
+    def __init__(self, obj):
+        self.obj = obj
+
+    def getattr(self, I, name):
+        if name in ("__name__", "__qualname__"):
+            return SV(Z.mk_str(cls_name_of(Z.Val.id(self.obj.t))), TStr())
+        raise Unsupported("attribute %s of the class of an abstract object" % name)
+
+
+cls_name_of = z3.Function("cls_name_of", z3.IntSort(), z3.StringSort())
+
+
 class ExcArgs(NativeObj):
     def __init__(self, exc):
         self.exc = exc
@@ -73,6 +88,7 @@ def is_strlike(v):
 
 
 def opaque_str(I, why):
+    I.ctx.ghost["nondet"] = True
     I.ctx.note("string built by %s is an unconstrained string (text content not modelled)" % why)
     return SV(Z.mk_str(fresh("s", z3.StringSort())), TStr())
 
